@@ -2232,7 +2232,39 @@ DV_FN_FORMS = ["py-int", "np-int64", "np-int32", "single-point", "all-equal-outp
 DV_REDUCED = ("f32-generic", "c64-generic", "np-float32-generic")
 DV_STYLES = ["int", "qubit", "tuple", "mixed", "register", "reg-rev", "reg-slice", "regs-int", "regs-qubit"]
 DV_CALLS = ["init", "init-none", "init-pos", "append", "compose", "compose-gate", "to_gate", "decompose", "def-twice",
-            "inv-inv", "gate-inv", "inv-gate", "deepcopy", "copy-first", "twice", "reuse-opts"]
+            "inv-inv", "gate-inv", "inv-gate", "deepcopy", "copy-first", "twice", "reuse-opts", "refill-before-def"]
+
+
+def _dv_refill(raw):
+    """Overwrite the caller's data object IN PLACE with another valid datum (a work buffer reused for the next input) and
+    return a function that restores it; None when the object cannot be overwritten in place (tuples, read-only arrays, nested
+    python sequences).  ndarray: rows rolled by one (a unit vector stays a unit vector, a unitary / isometry stays one);
+    flat list of numbers: rotated and negated; dict: the values rotated among the keys."""
+    if isinstance(raw, np.ndarray) and raw.flags.writeable and raw.dtype.kind in "fciu" and raw.shape[0] >= 2:
+        saved = raw.copy()
+        raw[...] = np.roll(saved, 1, axis=0)
+
+        def restore():
+            raw[...] = saved
+        return restore
+    if isinstance(raw, list) and raw and all(isinstance(x, (int, float, complex, np.number)) for x in raw) and len(raw) >= 2:
+        saved = list(raw)
+        raw[:] = saved[1:] + saved[:1]
+
+        def restore():
+            raw[:] = saved
+        return restore
+    if isinstance(raw, dict) and len(raw) >= 2 and type(raw) is dict:
+        saved = dict(raw)
+        ks = list(saved)
+        for a, b in zip(ks, ks[1:] + ks[:1]):
+            raw[a] = saved[b]
+
+        def restore():
+            for a in ks:
+                raw[a] = saved[a]
+        return restore
+    return None
 DV_NEEDS_UNITARY = ("inv-inv", "gate-inv", "inv-gate")
 DV_NO_OPTS = ("SVDInitialize", "DcspInitialize", "BlackBoxInitialize", "MergeInitialize")
 
@@ -2911,9 +2943,21 @@ def _run_div(ctx, case):
             host.append(g, qq)
             host.append(g, qq2)
             seq = [q, q2]
+        elif call == "refill-before-def":
+            # the gate is constructed, the caller's buffer is refilled with the next input, only then is the (lazy) definition
+            # built: the gate must still be the gate of the data it was constructed from
+            g = cls(raw, **kw)
+            restore = _dv_refill(raw)
+            try:
+                _ = g.definition
+            finally:
+                if restore is not None:
+                    restore()
+            ctx.count("diversity:refill-before-def:" + ("refilled" if restore is not None else "object-not-refillable"))
+            host.append(g, qq)
         else:
             raise KeyError(call)
-        if call in ("append", "deepcopy", "copy-first", "twice", "def-twice") and case.get("label") is not None:
+        if call in ("append", "deepcopy", "copy-first", "twice", "def-twice", "refill-before-def") and case.get("label") is not None:
             lab = host.data[0].operation.label
             if lab != case["label"]:
                 ctx.fail("div-label:" + _dv_key(case), f"{name}(..., label={case['label']!r}) has label {lab!r}", case)
@@ -3086,7 +3130,7 @@ def _dv_case(rng, name, n, form, opt, call, style, extra, **more):
         n = case["n"] = 2
     if name == "MixedInitialize":
         case.setdefault("k", 2)
-        if call in DV_NEEDS_UNITARY or (call in ("twice", "copy-first", "deepcopy", "def-twice", "append", "compose", "to_gate")
+        if call in DV_NEEDS_UNITARY or (call in ("twice", "copy-first", "deepcopy", "def-twice", "append", "compose", "to_gate", "refill-before-def")
                                         and rng.random() < 0.5):
             case.setdefault("ctor", {})
             case["ctor"].setdefault("reset", False)       # static initialize cannot pass it: constructor call forms only
